@@ -54,7 +54,7 @@ func init() {
 
 func runDotText(c *Ctx) *Violation {
 	t := c.T
-	c.Declare("subgraph_to_subgraph_edge", "chained_edge_statement", "nested_subgraph_endpoint")
+	c.Declare("subgraph_to_subgraph_edge", "chained_edge_statement", "nested_subgraph_endpoint", "declared_node_in_subgraph_endpoint")
 	next := 0
 	fresh := func() string {
 		next++
@@ -68,7 +68,7 @@ func runDotText(c *Ctx) *Violation {
 	var mkVertex func(depth int) vertex
 	mkVertex = func(depth int) vertex {
 		switch k := t.Choose(simrt.KWorkload, 4); {
-		case k == 0 && len(declared) > 0 && depth == 0:
+		case k == 0 && len(declared) > 0:
 			id := declared[t.Choose(simrt.KWorkload, len(declared))]
 			return vertex{id, []string{id}}
 		case k <= 1:
@@ -80,6 +80,22 @@ func runDotText(c *Ctx) *Violation {
 			var ids []string
 			var parts []string
 			for i := 0; i < n; i++ {
+				if len(declared) > 0 && t.Choose(simrt.KWorkload, 4) == 3 {
+					// an already declared node is a member of the subgraph too
+					id := declared[t.Choose(simrt.KWorkload, len(declared))]
+					dup := false
+					for _, x := range ids {
+						if x == id {
+							dup = true
+						}
+					}
+					if !dup {
+						ids = append(ids, id)
+						parts = append(parts, id)
+						c.Probe("declared_node_in_subgraph_endpoint", 1)
+						continue
+					}
+				}
 				if depth == 0 && t.Choose(simrt.KWorkload, 6) == 5 {
 					in := mkVertex(1)
 					if strings.HasPrefix(in.text, "{") || strings.HasPrefix(in.text, "subgraph") {
@@ -93,6 +109,16 @@ func runDotText(c *Ctx) *Violation {
 				ids = append(ids, id)
 				parts = append(parts, id)
 			}
+			// a subgraph end point is a set of nodes
+			seen := map[string]bool{}
+			var uniq []string
+			for _, id := range ids {
+				if !seen[id] {
+					seen[id] = true
+					uniq = append(uniq, id)
+				}
+			}
+			ids = uniq
 			text := "{" + strings.Join(parts, "; ") + "}"
 			if t.Choose(simrt.KWorkload, 3) == 2 {
 				text = fmt.Sprintf("subgraph s%d %s", next, text)
